@@ -16,7 +16,7 @@ RULE = (
     'all reachable buses accumulate. Non-trivial = the forwarding graph has a cycle, diamond or self-loop and >= 3 '
     'buses were reachable for some event; distinct by canonical JSON.'
 )
-ASSUMPTIONS = ['virtual time', 'no timeouts / stop / capacity overflow']
+ASSUMPTIONS = ['virtual time', 'no stop / capacity overflow; one scenario in six has short event timeouts (events whose processing a timed-out awaiting ancestor interrupted are left to C10)']
 
 PH = Profile(raises=0.05, wild=0.3, maxdepth=[1, 2], max_ops=3, modes=['await', 'ff', 'later'])
 
@@ -87,6 +87,9 @@ def _sc(draw):
     out = {'buses': buses, 'fwd': fwd, 'handlers': handlers, 'actors': actors, 'maxdepth': maxdepth, 'cap': 24 if small_hist else 80, 'warm': draw(st.booleans())}
     if sc_names:
         out['names'] = sc_names
+    if draw(st.integers(0, 5)) == 0:
+        # short event timeouts: a handler that times out on a forwarding bus must not keep the event from travelling on
+        out['timeouts'] = {str(t): draw(st.sampled_from([0.13, 0.27, 0.41])) for t in range(4) if draw(st.booleans())}
     return out
 
 
@@ -157,6 +160,8 @@ def classes(F):
     cl.append(f'reach={_max_reach(F)}')
     if any(r['k'] == 'redisp' and r.get('ok') for r in F.tr):
         cl.append('redispatch')
+    if any(r['k'] == 'exit' and r['how'] == 'cancelled' for r in F.tr):
+        cl.append('handler-timed-out-on-a-forwarding-bus' if F.sc.get('fwd') else 'handler-timed-out')
     return cl
 
 
